@@ -439,6 +439,12 @@ outer:
 		}
 	}
 
+	// emit payload that is still queued behind sequence gaps: the assemblers
+	// are dropped after this call, nothing else would ever flush it.
+	for _, a := range tcpAssembler {
+		a.FlushAll()
+	}
+
 	// scan for next unused stream id
 	nextStreamID := uint64(0)
 	for _, idx := range existingIndexes {
